@@ -1,8 +1,11 @@
 use crate::infra::{Run, Violation};
 use serde_json::Value;
 
+pub mod c05;
+pub mod c05b;
 pub mod c12;
 pub mod c13;
+pub mod c14;
 pub mod c15;
 pub mod cfgcheck;
 pub mod c16;
@@ -15,8 +18,10 @@ pub struct Entry {
 
 pub fn lookup(id: &str) -> Option<Entry> {
     Some(match id {
+        "C05" => Entry { level: "model_checking", run: c05::run, replay: c05::replay },
         "C12" => Entry { level: "exploration", run: c12::run, replay: c12::replay },
         "C13" => Entry { level: "model_checking", run: c13::run, replay: c13::replay },
+        "C14" => Entry { level: "model_checking", run: c14::run, replay: c14::replay },
         "C15" => Entry { level: "exploration", run: c15::run, replay: c15::replay },
         "C16" => Entry { level: "exploration", run: c16::run, replay: c16::replay },
         _ => return None,
